@@ -16,6 +16,10 @@ From PV Require Import Lib.GoInt.
 Import ListNotations.
 Open Scope Z_scope.
 
+(* coff is what `_, tz := t.Zone()` returns: the offset in effect AT THE INSTANT t in t's Location.
+   For FixedZone/UTC it is a constant of the Location; for time.Local (or any zone with DST or
+   historical changes) it is a function of the instant AND the location.  DateString must read it
+   per call at t (see DateStringAt below); the harness supplies it from an independent zone lookup. *)
 Record civil := Civil { cy : Z; cmo : Z; cd : Z; ch : Z; cmi : Z; cs : Z; coff : Z }.
 
 (* byte constants *)
@@ -367,3 +371,16 @@ Definition iso_string (y mo d h mi s : Z) (sg : N) (zh zm : Z) : list N :=
 (* the offset (seconds east of UTC) denoted by sign byte, zone hours, zone minutes *)
 Definition signed_off (sg : N) (zh zm : Z) : Z :=
   if (sg =? b_minus)%N then - (zh * 3600 + zm * 60) else zh * 3600 + zm * 60.
+
+(* ------------------------------------------------------------------ *)
+(* A time.Time as (instant, location).  Package time is a parameter: zone_offset l u is the offset
+   in effect in location l at the instant u (Unix seconds) — t.Zone(); civil_fields u off is the civil
+   reading of instant u at offset off — t.Year() ... t.Second().  DateString evaluates the offset
+   AT u, in l: not at process start, not at any other instant. *)
+Section Located.
+  Variable Loc : Type.
+  Variable zone_offset : Loc -> Z -> Z.
+  Variable civil_fields : Z -> Z -> civil.
+  Definition civil_at (l : Loc) (u : Z) : civil := civil_fields u (zone_offset l u).
+  Definition DateStringAt (l : Loc) (u : Z) : list N := DateString (civil_at l u).
+End Located.
